@@ -7,6 +7,7 @@ mod vec_codec;
 mod wire;
 mod rp;
 mod gen;
+mod sp;
 
 use std::collections::HashMap;
 use std::path::PathBuf;
@@ -69,6 +70,19 @@ fn main() {
             rp::run_replay(&prop, args.num("seed", 1), stdin.lock(), args.log(), &mut rep, args.num("threads", 12) as usize);
             rep.finish(args.out().as_deref())
         },
+        "sp-replay" => {
+            let prop = args.get("prop").unwrap_or("C02").to_string();
+            let mut rep = Report::new(&prop);
+            sp::run_replay(&prop, args.num("seed", 1), stdin.lock(), args.log(), &mut rep, args.num("threads", 12) as usize);
+            rep.finish(args.out().as_deref())
+        },
+        "sp-trace" => {
+            let prop = args.get("prop").unwrap_or("C02").to_string();
+            let mut rep = Report::new(&prop);
+            let path = PathBuf::from(args.get("trace").unwrap_or("/verif/out/sp.trace.ndjson"));
+            sp::run_trace(&prop, args.num("seed", 1), args.num("scenarios", 100), &path, &mut rep);
+            rep.finish(args.out().as_deref())
+        },
         "rp-trace" => {
             let prop = args.get("prop").unwrap_or("C01").to_string();
             let mut rep = Report::new(&prop);
@@ -87,6 +101,8 @@ fn main() {
                 "vector" => vec_codec::check_vector(&mut rep, &prop, &r["vector"]),
                 "rp-edge" => rp::replay_file(&prop, r, &mut rep),
                 "rp-bytes" => rp::replay_bytes(&prop, r, &mut rep),
+                "sp-edge" => sp::replay_file(&prop, r, &mut rep),
+                "sp-bytes" => sp::replay_bytes(&prop, r, &mut rep),
                 "bufsize" => vec_codec::sweep_bufsize(&mut rep, r["n"].as_u64().unwrap_or(0) as usize),
                 k => { eprintln!("replay kind {k} is not supported by this build"); std::process::exit(2) },
             }
